@@ -25,9 +25,9 @@ F8  == INSTANCE GF WITH W <- 8,  Poly <- 285,   Gen <- 2, Reg <- 18
 F16 == INSTANCE GF WITH W <- 16, Poly <- 69643, Gen <- 2, Reg <- 10
 P   == INSTANCE GF2Poly
 
-ASSUME F2!InitTables /\ F3!InitTables /\ F4!InitTables /\ F8!InitTables /\ F16!InitTables
-ASSUME F2!TablesOK /\ F3!TablesOK /\ F4!TablesOK /\ F8!TablesOK /\ F16!TablesOK
-ASSUME F2!FastMulOKOnBasis /\ F3!FastMulOKOnBasis /\ F4!FastMulOKOnBasis /\ F8!FastMulOKOnBasis
+ASSUME F2!InitTablesp(0) /\ F3!InitTablesp(0) /\ F4!InitTablesp(0) /\ F8!InitTablesp(0) /\ F16!InitTablesp(0)
+ASSUME F2!TablesOKp(0) /\ F3!TablesOKp(0) /\ F4!TablesOKp(0) /\ F8!TablesOKp(0) /\ F16!TablesOKp(0)
+ASSUME F2!FastMulOKOnBasisp(0) /\ F3!FastMulOKOnBasisp(0) /\ F4!FastMulOKOnBasisp(0) /\ F8!FastMulOKOnBasisp(0)
 
 VARIABLES kind, a, b
 vars == << kind, a, b >>
